@@ -427,10 +427,14 @@ func c11DeviateCases(ctx *core.Ctx, r *gen.Rng) {
 				d.repl, dkind = c11RandArgs(r, "replace", kind, p), "add+replace+delete"
 			}
 		}
+		kc := map[string]int{"leaf": 0, "leaf-list": 1, "list": 2, "container": 3}[kind]
 		base, bcode, bnote := c11Load(c11Module(kind, p, nil))
 		if bcode != 0 {
-			// the generated target itself does not load: not a deviation case
-			ctx.Count("deviate:skipped (baseline does not load: " + bnote + ")")
+			// the module without the deviation must load; reported as an observation nothing can agree with
+			ctx.Add(emit.App("CDeviate", emit.Z(int64(kc)), p.term(), d.term(), emit.Z(int64(3)), "false", "false", (&c11Props{}).term()),
+				map[string]interface{}{"kind": "deviate", "node": kind, "deviate": dkind, "yang": c11Module(kind, p, nil),
+					"note": "the module WITHOUT the deviation does not load: " + bnote}, true)
+			ctx.Count("deviate:baseline does not load")
 			continue
 		}
 		bnames, brecs, _ := c11Children(base)
@@ -458,7 +462,6 @@ func c11DeviateCases(ctx *core.Ctx, r *gen.Rng) {
 				obs = props["x"]
 			}
 		}
-		kc := map[string]int{"leaf": 0, "leaf-list": 1, "list": 2, "container": 3}[kind]
 		ctx.Add(emit.App("CDeviate", emit.Z(int64(kc)), p.term(), d.term(), emit.Z(int64(code)), emit.Bool(removed), emit.Bool(othersOK), obs.term()),
 			map[string]interface{}{"kind": "deviate", "node": kind, "deviate": dkind, "yang": src, "observed_code": code, "note": note,
 				"removed": removed, "others_unchanged": othersOK, "codes": "0 loaded / 1 load error / 2 panic"}, true)
